@@ -347,7 +347,7 @@ Proof.
   destruct (existsb snd moved) eqn:C.
   - destruct (accepted (check_rule_hashes H cfg (outs_of (map fst moved)) (d_declared d))) eqn:A; intros _.
     + unfold event_good; cbn. repeat split; try discriminate; [apply check_iff; exact A|left; reflexivity].
-    + unfold event_good; cbn. repeat split; try discriminate.
+    + unfold event_good; cbn. repeat split; try discriminate; try (intros; apply needs_building_nil; reflexivity).
       * intros E. rewrite E in A. discriminate.
       * intros M. assert (accepted (check_rule_hashes H cfg (outs_of (map fst moved)) (d_declared d)) = true) as T
             by (apply check_iff; right; exact M).
@@ -405,12 +405,13 @@ End Check.
 (* ------------------------------------------------------------------------------------------ *)
 (* witnesses *)
 
-(* a total "hash function" with digests of the right size: the input, zero padded / cut *)
-Definition toyH : hashfun := fun a x => firstn (algo_size a) (x ++ repeat 0%N (algo_size a)).
+(* a total "hash function" with digests of the right size: length byte, then the input, zero padded / cut *)
+Definition toyH : hashfun :=
+  fun a x => firstn (algo_size a) (N.modulo (N.of_nat (length x)) 256 :: x ++ repeat 0%N (algo_size a)).
 
 Lemma toyH_sized : H_sized toyH.
 Proof.
-  intros a x. unfold toyH. rewrite firstn_length, app_length, repeat_length. lia.
+  intros a x. unfold toyH. rewrite firstn_length. cbn [length]. rewrite app_length, repeat_length. lia.
 Qed.
 
 Definition default_cfg : config := {| hashfn := Sha256; checkers := [Sha1; Sha256; Blake3] |}.
